@@ -912,6 +912,9 @@ def check_clear(rep, fl, rule="R11.1"):
             # a path that propagates an error with `?` (the request could not be sent) has nothing to wait for
             if any(a[0] == "variant" and a[2] == "Break" and v and is_call(a[1], "branch") for a, v in es.lits):
                 continue
+            # ... and so has one that tests the send's result itself (`if let Err(e) = tx.send(..) { return Err(..) }`)
+            if any(a[0] == "variant" and ((a[2] == "Err" and v) or (a[2] == "Ok" and v is False)) and any(is_call(c, "send") or is_call(c, "Sender::send") for c in calls_in(a[1])) for a, v in es.lits):
+                continue
             closed_after = any(is_closed_lit(a) and v for a, v in es.lits)
             if not cnt.get("wait") and not closed_after:
                 okw = False
@@ -925,7 +928,7 @@ def check_clear(rep, fl, rule="R11.1"):
     mc = calls_to(h, "metrics::Metrics::clear")
     ok = len(cc) == 1 and len(pc) == 1 and len(sc) == 1 and len(mc) == 1
     if ok:
-        errs = [x for x, tt in h.calls() if callee_matches(h.callee_of(tt), "FromResidual::from_residual")]
+        errs = err_exit_blocks(h)
         # the handler does all four unless the request or the drain failed
         for x in (cc, pc, sc, mc):
             ok = ok and must_pass_through(h, [x[0][0]] + errs)
@@ -1182,7 +1185,7 @@ def check_handle_item_pairing(rep, fl, rule="R06.2", collisions=True, only_sites
             if mentions(it_.origin(), victims):
                 vic_switch.append(it_.nbi)
                 some_edges.append(it_.some)
-    errs = [x for x, tt in hi.calls() if callee_matches(hi.callee_of(tt), "FromResidual::from_residual")]
+    errs = err_exit_blocks(hi)
     okv = bool(vic_switch) and must_pass_through(hi, vic_switch + errs, from_bi=adds[0][0])
     if okv and vic_rm is not None:
         okv = all(must_pass_through(hi, [vic_rm[0]] + errs + _loop_exits(hi, vic_rm[0]), from_bi=tgt) for tgt in some_edges)
@@ -1248,7 +1251,7 @@ def check_remove_pair(rep, fl, rule="R06.3"):
         ok = a[1] == index and a[2] == conflict and cf is not None and cf[0].endswith("Item::Delete") and cf[1].get("key") == index and cf[1].get("conflict") == conflict
         ok = ok and block_dominates(b, sr[0][0], ss[0][0])
         # every not-closed, error-free path sends the Delete
-        errs = [x for x, tt in b.calls() if callee_matches(b.callee_of(tt), "FromResidual::from_residual")]
+        errs = err_exit_blocks(b)
         for bi in b.live_blocks():
             t = b.term(bi)
             if t and t["k"] == "switch":
